@@ -406,7 +406,12 @@ pub fn execute(sc: &Scenario) {
                     assert_eq!(m.par_eq(&other), m == other, "par_eq disagrees with ==");
                     assert_eq!(other.par_eq(&m), other == m, "par_eq disagrees with == (swapped)");
                     assert!(m.par_eq(&same) && same.par_eq(&m), "par_eq false on equal contents");
-                    if let Some((k, _)) = seq.iter().next() {
+                    if let Some((k, v)) = seq.iter().next() {
+                        // same length, one key exchanged for a key outside the universe
+                        let mut swapped = same.clone();
+                        swapped.remove(k);
+                        swapped.insert(uni + 17, *v);
+                        assert!(!m.par_eq(&swapped) && !swapped.par_eq(&m), "par_eq true although the key sets differ");
                         same.insert(*k, 999_999);
                         assert!(!m.par_eq(&same) && !same.par_eq(&m), "par_eq true although one value differs");
                     }
